@@ -606,6 +606,43 @@ impl HnswIndex {
     }
 }
 
+// ── Verification hooks (compiled only with --cfg inputlayer_verif) ─────────
+
+#[cfg(inputlayer_verif)]
+impl HnswIndex {
+    /// What the hnsw_rs graph search returns for an already prepared query:
+    /// (internal index, raw L2 distance) pairs, in the order hnsw_rs returns them.
+    pub fn verif_raw_search(
+        &self,
+        prepared_query: &[f32],
+        knbn: usize,
+        ef: usize,
+    ) -> Vec<(usize, f32)> {
+        match &*self.inner.read() {
+            Some(h) => h
+                .hnsw
+                .search(prepared_query, knbn, ef)
+                .into_iter()
+                .map(|n| (n.d_id, n.distance))
+                .collect(),
+            None => Vec::new(),
+        }
+    }
+
+    /// The nodes the graph was last built from: tuple id and vector of every internal index.
+    pub fn verif_graph_nodes(&self) -> Vec<(TupleId, Vec<f32>)> {
+        match &*self.inner.read() {
+            Some(h) => h
+                .index_to_tuple_id
+                .iter()
+                .copied()
+                .zip(h._storage.iter().cloned())
+                .collect(),
+            None => Vec::new(),
+        }
+    }
+}
+
 #[cfg(test)]
 #[allow(clippy::unwrap_used)]
 mod tests {
